@@ -369,6 +369,15 @@ fn bad_requests(cx: &mut Cx, s: Sess, cwp: Bytes, issuer: NodeId, holder: NodeId
     }
     if cwp.len() > 112 { let mut b = cwp.clone(); b.drain(80..112); send(cx, &s, b, "cwp_drop_response", &ideal); }
     { let mut b = cwp.clone(); let ins = cwp[48..80].to_vec(); b.splice(80..80, ins); send(cx, &s, b, "cwp_insert_response", &ideal); }
+    // Mallory: the identity as commitment point with a proof that is NOT the (legitimate) all-zero
+    // proof of the zero opening: random scalars, and the scalars of the honest request
+    {
+        let mut id = vec![0u8; 48]; id[0] = 0xc0;
+        for (name, tail) in [("random_scalars", { let mut t = bytes_for(cx.run_seed, b"idc", 0, cwp.len() - 48); for c in t.chunks_mut(32) { c[0] &= 0x3f; } t }), ("honest_scalars", cwp[48..].to_vec()), ("two_random_scalars", { let mut t = bytes_for(cx.run_seed, b"idc2", 0, 64); for c in t.chunks_mut(32) { c[0] &= 0x3f; } t })] {
+            let mut b = id.clone(); b.extend_from_slice(&tail);
+            send(cx, &s, b, &format!("forged:identity_commitment+{name}"), &ideal);
+        }
+    }
     // cross-suite replay: the honest request of this suite delivered to the other suite's issuer
     { let mut s2 = s.clone(); s2.suite = s.suite.other(); send(cx, &s2, cwp.clone(), "misroute_suite", &ideal); }
     // splice: commitment of this request with the proof made for other committed messages
